@@ -607,7 +607,7 @@ func (x *runner) stepPoint(gi int) {
 			b = j // the same group element held in two internal representations
 		}
 		ds, rc, oa, ob, al := x.pointOperands(nm(op), gi, a, b)
-		if !ds.in && r.Chance(15) {
+		if r.Chance(20) {
 			// second operand: the first one again, as a different object in another representation
 			b = a
 			ob, al = x.rerep(gi, oa)
